@@ -315,7 +315,9 @@ def build_policy(spec):
     if isinstance(spec, (tuple, list)) and spec and spec[0] == "R":
         kw = dict(spec[1])
         if "remove" in kw:
-            kw["remove_headers_on_redirect"] = kw.pop("remove")
+            names = kw.pop("remove")
+            # the collection type the caller happens to use must not matter (list / tuple / set / frozenset)
+            kw["remove_headers_on_redirect"] = {"frozenset": frozenset, "tuple": tuple, "set": set}.get(kw.pop("remove_as", None), list)(names)
         return Retry(**kw)
     return spec
 
